@@ -323,6 +323,39 @@ def mk_two_copies(name, lo, width=2.509):
     return body
 
 
+def mk_two_copies_text(name):
+    """as O3, the far copy written into the PDB text itself (so that the coordinate columns are read, all 8 of them):
+    offsets that make the fields 8 characters wide, along each axis"""
+    def body(ctx):
+        from . import micro as M
+        from .c04 import with_hydrogens_text
+        txt = with_hydrogens_text(name)
+        axis = ctx.choice('axis', [0, 1, 2])
+        off = ctx.choice('offset', [1004.0, 2000.0, 5011.5, 9000.0, -960.0, 64.0])
+        copy = []
+        for l in txt.split('\n'):
+            if l.startswith('ATOM'):
+                c = [float(l[30:38]), float(l[38:46]), float(l[46:54])]
+                c[axis] += off
+                copy.append(l[:21] + 'B' + l[22:30] + '%8.3f%8.3f%8.3f' % tuple(c) + l[54:])
+            elif l:
+                copy.append(l)
+        base = _base_run(name)
+        both = M.run(txt + '\n'.join(copy) + '\n', args=['--keep-protons'])
+        gb = M.groups(base)
+        g2 = M.groups(both)
+        for (lab, typ), lst in gb.items():
+            for chain in 'AB':
+                lab2 = lab[:-1] + chain
+                ctx.claim('group-present-in-both-copies', (lab2, typ) in g2 and len(g2[(lab2, typ)]) == len(lst), detail=lab2)
+                if (lab2, typ) not in g2:
+                    continue
+                for a, b in zip(lst, g2[(lab2, typ)]):
+                    ctx.claim('desolvation-as-alone', a.num_volume == b.num_volume and abs(a.energy_volume - b.energy_volume) < 1e-9 and abs(a.buried - b.buried) < 1e-9, detail=lab2)
+                    ctx.claim('pka-as-alone', abs(a.pka_value - b.pka_value) < 1e-9, detail='%s: %r vs %r' % (lab2, a.pka_value, b.pka_value))
+    return body
+
+
 _BASE = {}
 
 
@@ -390,6 +423,13 @@ def obligations(tier):
                               bounds='cluster A: 3 groups with %d interactions, cluster B: 2 groups with 1; all values symbolic as above' % ni,
                               claim_doc='determinants of cluster A in the joint run == cluster A alone', max_paths=50000,
                               wall_s=170 if tier == 'quick' else 1500, query_timeout_ms=20000, shards=16))
+    obs.append(Obligation('O5-coordinate-fields-read-in-full', H.o_coordinate_fields, code=['propka/atom.py:Atom.set_properties'],
+                          bounds='one ATOM record, one coordinate field with 4 leading characters and 3 decimals symbolic: every %8.3f rendering from -999.999 to 9999.999',
+                          claim_doc='a part placed 1000 A or more away is read where it is written (not folded back next to the other part)', max_paths=2000))
+    for name in (['pair_ASP_ARG'] if tier == 'quick' else ['pair_ASP_ARG', 'pep8', 'pair_GLU_ARG_TYR', 'tri_ASP']):
+        obs.append(Obligation('O3-two-copies-in-the-text[%s]' % name, mk_two_copies_text(name), code=['propka/atom.py:Atom.set_properties', 'propka/run.py:single (whole pipeline)'],
+                              bounds='%s and a copy (chain B) written into the text 64, -960, 1004, 2000, 5011.5 or 9000 A away along x, y or z (18 concrete files)' % name, kind='table-check',
+                              claim_doc='each copy gets the desolvation and pKa of the structure alone', max_paths=200))
     return obs
 
 
